@@ -19,7 +19,8 @@ RULE = (
     'response, unexplained rises) and a contention generator (long mixed '
     'runs of heavy / drizzle steps and jump / small increments so that storms '
     'overlap several rises and vice versa) x lattice thresholds (often equal to a '
-    'data value); ~10% of cases run through the command line on a file, the '
+    'data value), plus a float generator (arbitrary finite doubles for values '
+    'and thresholds from 1e-6 to 500); ~10% of cases run through the command line on a file, the '
     'rest through load_data / classify_intervals on :memory:. Oracle: no '
     'exception (a dataset without any water level must be refused with the '
     'explicit "No valid data intervals" error and left unchanged); no rise '
@@ -37,7 +38,8 @@ def cases(draw, tier):
     from vfw.props.C02 import contention_records, chain_records
     record = draw(st.one_of(
         gen_records.records(max_steps=30 if tier == 'quick' else 60),
-        contention_records(), chain_records()))
+        contention_records(), chain_records(),
+        gen_records.float_records()))
     record['cli'] = draw(st.integers(0, 9)) == 0
     return record
 
